@@ -108,6 +108,7 @@ struct OpRec {
     // cancellation
     bool signalled = false; uint64_t seq_signal = 0; int signal_type = 0;
     bool immediate_expected = false;   // failed validation at initiation (model's opinion, set by scenario)
+    int expect_ec = 0;                 // expected client::error value for a refused request (0 = any)
     bool after_terminal = false;       // initiated after cancel()/async_disconnect of its incarnation
 };
 
@@ -185,6 +186,8 @@ struct Conn {
     std::string c2b_pending;          // broker side: unparsed bytes
     bool stalled = false;             // broker ignores input on this connection (silent)
     std::shared_ptr<void> broker_state;
+    std::deque<int> undelivered_bpkts;            // broker packets not yet completely read by the client, in stream order
+    std::map<size_t, int> cpkt_at;                // c2b stream offset -> client packet id
 };
 using ConnPtr = std::shared_ptr<Conn>;
 
